@@ -1112,15 +1112,25 @@ func ruleEqualsFromOrder(c *Ctx) {
 		nret++
 		okr := false
 		if len(r.Results) == 1 {
+			// the calls that must all be false:  !A && !B   or   !(A || B)
 			var cs []ast.Expr
+			var negated []ast.Expr
 			flattenAnd(r.Results[0], &cs)
-			dirs := map[string]bool{}
 			for _, cj := range cs {
 				u, ok := ast.Unparen(cj).(*ast.UnaryExpr)
 				if !ok || u.Op != token.NOT {
-					continue
+					negated = nil
+					cs = nil
+					break
 				}
-				call, ok := ast.Unparen(u.X).(*ast.CallExpr)
+				var ds []ast.Expr
+				flattenOr(u.X, &ds)
+				negated = append(negated, ds...)
+			}
+			cs = negated
+			dirs := map[string]bool{}
+			for _, cj := range cs {
+				call, ok := ast.Unparen(cj).(*ast.CallExpr)
 				if !ok || len(call.Args) != 1 {
 					continue
 				}
@@ -1150,4 +1160,14 @@ func ruleEqualsFromOrder(c *Ctx) {
 		return true
 	})
 	c.check(good && nret > 0, "Value.Equals", at.Pos(), "Equals is !a.Less(b) && !b.Less(a): the equality of the order", "Value.Equals compares the values itself instead of deriving equality from Less: equality filters (==, !=, WHEREIN) and order filters (<, <=, ranges) can now disagree on whether two values are the same — the documented value order is defined in one place, Less")
+}
+
+func flattenOr(e ast.Expr, out *[]ast.Expr) {
+	e = ast.Unparen(e)
+	if be, ok := e.(*ast.BinaryExpr); ok && be.Op == token.LOR {
+		flattenOr(be.X, out)
+		flattenOr(be.Y, out)
+		return
+	}
+	*out = append(*out, e)
 }
